@@ -158,6 +158,16 @@ for name in order:
         ct.append("//@   ensures noalias: err == nil ==> " + " && ".join(f"!sameblock(m.{n}, b)" for n in slices))
     ct.append("")
 
+# the two dispatchers: the message type is the one whose function code is in the header (the code of each
+# type is taken from its own MsgType tag, not from the dispatch tables); unknown codes, a wrong length and a
+# wrong protocol id are rejected
+for kind in ("Request", "Response"):
+    table = [(header(n)[0], n) for n in order if n.endswith(kind) and header(n)[0] is not None]
+    ct += [f"//@ func Unmarshal{kind}", "//@   params bytes", "//@   returns (res, err)",
+           "//@   ensures header:  err == nil ==> len(bytes) == 64 && bytes[0] == 0x17 && res != nil",
+           "//@   ensures known:   err == nil ==> " + " && ".join(f'(bytes[1] == {c} ==> dyntype(res) == typeid("*messages.{n}"))' for c, n in table),
+           "//@   ensures unknown: len(bytes) == 64 && " + " && ".join(f"bytes[1] != {c}" for c, n in table) + " ==> err != nil", ""]
+
 open(os.path.join(SRC, "lemmas_verif.go"), "w").write("\n".join(go))
 open(os.path.join(SRC, "contracts_verif.go"), "w").write("\n".join(ct))
 print("generated lemmas for", len(names), "message types")
